@@ -5,6 +5,16 @@ Writes (from the CURRENT source under core.REPO, i.e. /repo or $SNOW_REPO)
   lean/SnowModel/Gen/Evap.lean     <- utils.vapour_pressure_liquid / _solid / vapour_flux
   lean/SnowModel/Gen/Derived.lean  <- constants.calculateDerived (everything after `_loadConfig`)
 
+and, in FORMULA EXTRACTION mode (`translate_formulas`, driven by harness/gentie.py),
+
+  lean/SnowModel/Gen/Formulas0D.lean  <- single assignments of Snowing._run_0D
+  lean/SnowModel/Gen/GenFlake.lean    <- single assignments of Snowflake.run
+  lean/SnowModel/Gen/Formulas1D.lean  <- single assignments of Snowing._run_1D
+
+one Lean definition per targeted assignment (target text + occurrence), parameters = the free
+names of the right-hand side, subscripts/attributes as opaque scalar parameters (see `FormulaTr`);
+lean/SnowProofs/Props/GenTie/*.lean proves each equal to the formula of the hand-written model.
+
 The accepted language is deliberately tiny.  Anything outside it raises
 `TranslatorError` naming the offending node: a broken tie, never a silent skip.
 
